@@ -1002,7 +1002,7 @@ def run(ctx):
     r = ctx.rng("configs")
     cfgs = corpus_cfgs()                                              # corpus first
     cfgs += matrix(r, not ctx.quick)
-    cfgs += [gen_cfg(r) for _ in range(ctx.n(16, 320))]
+    cfgs += [gen_cfg(r) for _ in range(ctx.n(16, 800))]
     cfgs += [gen_cfg(r, mixed=True, listed=[IAM, OPS]) for _ in range(ctx.n(2, 24))]
     cfgs += [gen_cfg(r, t3=False) for _ in range(ctx.n(40, 1500))]      # selection functions only (incl. custom / unset patterns)
     t2 = [c for c in cfgs if not c.get("t3", True)]
@@ -1042,7 +1042,9 @@ CLAIM = dict(
          'binding of the selected YAML rule (verb, path, query, body), and that add-iam-methods defines the three IAM RPCs on both clients; with '
          'machine-checked counterexamples where the code departs from the statement. Tie: T1 MIXINS_MAP; T2 has_*_mixin, _has_iam_overrides, '
          'mixin_api_methods, mixin_http_options, canonical tables vs installed descriptors, reference transcode vs google.api_core; T3 presence on '
-         'the emitted sync/asyncio clients and every mixin call against loopback gRPC and HTTP servers vs the model; a model-independent oracle.',
+         'the emitted sync/asyncio clients and transports, wrapped-method tables, and a three-round call program (request form, metadata and timeout of the caller; '
+         'second call in another order with a retry passed by the caller; request omitted) of every mixin RPC against loopback gRPC and HTTP servers vs the model; '
+         'a model-independent oracle (binding chosen in the declared order of the YAML rule).',
     technique='Lean 4 theorems (iff-characterisation of the selection, finite tables by decide) + differential T2/T3 against the emitted clients over loopback gRPC/HTTP',
     design='7.17',
     note='Per-method template text is covered only through T3. path_template.transcode is external (reference implementation T2-compared). '
